@@ -366,6 +366,9 @@ def run_real(case: SysCase, configure=None, after_request=None):
             ctx.armed.discard(r[1])
             outs.append("-")
             continue
+        if r[0] == "reads":
+            outs.append("T:?")
+            continue
         kind, v, tok = r
         try:
             p = parse_period_token(tok)
